@@ -437,6 +437,7 @@ func runC07(t *testing.T, sc C07Scenario, record bool) *detsim.Outcome {
 	out.SimNanos += a.SimNs
 	if !a.Live || a.Err != "" {
 		out.AddViolation("baseline-failed", fmt.Sprintf("run without the comment: live=%v err=%q", a.Live, a.Err))
+		out.Poisoned = !a.Live
 		return out
 	}
 	if len(a.Reports) == 0 {
@@ -685,6 +686,7 @@ func runC07(t *testing.T, sc C07Scenario, record bool) *detsim.Outcome {
 	desc := fmt.Sprintf("`%s` (%s, placement %d) on rule `%s` %s:%d-%d at %s", comment, formNames[sc.Form], sc.Placement, ev.Rule, ev.Path, ev.First, ev.Last, a.Now.UTC().Format(time.RFC3339))
 	if !b.Live || b.Err != "" {
 		out.AddViolation("commented-run-failed", fmt.Sprintf("%s: live=%v err=%q", desc, b.Live, b.Err))
+		out.Poisoned = !b.Live
 		return out
 	}
 	var bNorm []normReport
@@ -730,6 +732,7 @@ func runC07(t *testing.T, sc C07Scenario, record bool) *detsim.Outcome {
 		out.Sched.Decisions += w.Stats.Decisions
 		if !w.Live || w.Err != "" || len(w.Iterations) < 2 {
 			out.AddViolation("watch-loop-failed", fmt.Sprintf("%s: live=%v err=%q iterations=%d", desc, w.Live, w.Err, len(w.Iterations)))
+			out.Poisoned = !w.Live
 			return out
 		}
 		wantAfter := multiset(func() []normReport {
